@@ -33,7 +33,7 @@ def _profile_factory(store):
         if event == 'call':
             co = frame.f_code
             fn = co.co_filename
-            if fn.startswith(root):
+            if fn.startswith(root) and co.co_name != '<module>' and not (co.co_name[:1].isupper() and co.co_name == getattr(co, 'co_qualname', '')):
                 store.add(fn[len(REPO) + 1:] + ':' + getattr(co, 'co_qualname', co.co_name))
     return prof
 
